@@ -1075,6 +1075,44 @@ fn parse_ref(s: &str) -> Option<NodeRef<Key, Val>> {
 }
 
 impl TreeMachine {
+    /// fault mode (C05): map-level calls made while the key type's `clone` / `cmp` may panic (caught at the call
+    /// boundary, as a caller with `catch_unwind` would), and every later map-level call on the possibly torn map.
+    /// Only one thing is judged here: no unchecked access outside its precondition.  Results are not compared
+    /// (the model has no notion of an operation interrupted half-way), so every answer is `ok`.
+    pub fn exec_f(&mut self, ws: &[&str]) -> String {
+        match ws {
+            ["arm-clone", n] => {
+                crate::kv::arm_clone_fuse(n.parse().unwrap_or(0));
+                return "ok".into();
+            }
+            ["arm-cmp", n] => {
+                crate::kv::arm_cmp_fuse(n.parse().unwrap_or(0));
+                return "ok".into();
+            }
+            _ => {}
+        }
+        if self.map.is_none() {
+            return "ok".into();
+        }
+        let keep = self.fails.len();
+        let r = catch_unwind(AssertUnwindSafe(|| self.exec_on_map(ws)));
+        crate::kv::disarm_fuses();
+        // content oracles do not apply to a map an injected fault may have torn
+        self.fails.truncate(keep);
+        self.damaged = true;
+        if let Err(p) = r {
+            let msg = p.downcast_ref::<String>().cloned().or_else(|| p.downcast_ref::<&str>().map(|s| s.to_string())).unwrap_or_default();
+            if msg.contains("VERIF-HOOK") {
+                self.fail("C05", format!("unchecked access outside its precondition in `F {}` (after an injected panic in the key type's clone/cmp): {}", ws.join(" "), msg));
+            } else if msg.contains("VERIF-FAULT") {
+                self.ev("fault-injected");
+            } else {
+                self.ev("fault-safe-panic");
+            }
+        }
+        "ok".into()
+    }
+
     /// raw-state operations: damage injection through the cfg-guarded hooks (C14) and
     /// the crate's safe public node/arena helpers (C15)
     pub fn exec_x(&mut self, ws: &[&str]) -> String {
